@@ -22,11 +22,15 @@ VARIABLES
   rts,       \* refresh-token name |-> [client, sub, scopes, aud, auth, root, live]
   idts,      \* id-token name |-> [client, sub, dead]   (hints for end_session / token exchange)
   devs,      \* device-code name |-> [client, scopes, uc, status, sub, expired]
+  gone,      \* set of <<client, grant>>: grants an administrator withdrew from a registration after the world was set up
   cnt,       \* name counters (design spec only)
   viol       \* set of <<rule, op>> violated so far (monitor: plus line numbers)
 
 svars == <<reqs, codes, redeemed, toks, rts, idts, devs>>
-vars  == <<cfg, reqs, codes, redeemed, toks, rts, idts, devs, cnt, viol>>
+vars  == <<cfg, reqs, codes, redeemed, toks, rts, idts, devs, gone, cnt, viol>>
+
+\* the grants a client is registered for NOW
+Grants(c) == {g \in Reg[c].grants : <<c, g>> \notin gone}
 
 Empty == [x \in {} |-> 0]
 Has(f, k) == k \in DOMAIN f
@@ -53,7 +57,7 @@ NoOut == [class |-> "none", status |-> 0, err |-> "none", doc |-> FALSE, req |->
 
 Init0 ==
   /\ reqs = Empty /\ codes = Empty /\ redeemed = {} /\ toks = Empty /\ rts = Empty /\ idts = Empty
-  /\ devs = Empty /\ viol = {}
+  /\ devs = Empty /\ viol = {} /\ gone = {}
   /\ cnt = [r |-> 0, k |-> 0, a |-> 0, f |-> 0, i |-> 0, d |-> 0, n |-> 0]
 
 -----------------------------------------------------------------------------
@@ -172,6 +176,9 @@ Apply(e) ==
          /\ UNCHANGED <<reqs, codes, redeemed, devs>>
     [] OTHER -> UNCHANGED svars     \* UserInfo, Introspect, StoreSlow: no abstract effect
 
+\* environment event Withdraw(client, grant): the administrator removes a grant from a client's registration; tokens issued before stay
+ApplyGone(e) == gone' = IF e.op = "Withdraw" /\ e.out.class = "ok" THEN gone \cup {<<e.args.client, e.args.grant>>} ELSE gone
+
 -----------------------------------------------------------------------------
 (* The listed properties, as rules over (pre-state, event).  Each rule is a  *)
 (* pair <<name, holds>>; Check returns the names that do not hold.           *)
@@ -212,7 +219,7 @@ RulesCodeExchange(a, o) ==
     <<"C04.code.publicNeedsPKCE", (ok /\ known /\ a.caller \in Clients /\ Reg[a.caller].auth = "none") => r.chall # "none">>,
     <<"C04.code.once",    ok => a.code \notin redeemed>>,
     <<"C04.tokensMatch",  (ok /\ known) => TokensMatchReq(o, r)>>,
-    <<"C05.code.grant",   ok => (a.caller \in Clients /\ "code" \in Reg[a.caller].grants)>>,
+    <<"C05.code.grant",   ok => (a.caller \in Clients /\ "code" \in Grants(a.caller))>>,
     <<"C05.code.auth",    ok => (a.caller \in Clients /\ ~BadCred(a.caller, a.cred))>>,
     <<"C05.refused.doc",  (~ok) => (o.status >= 400 /\ o.doc)>> }
 
@@ -225,14 +232,14 @@ RulesRefresh(a, o) ==
     <<"C07.refresh.live",   (ok /\ known) => r.live>>,
     <<"C07.refresh.client", (ok /\ known) => a.caller = r.client>>,
     <<"C07.refresh.auth",   ok => (a.caller \in Clients /\ AuthOK(a.caller, a.cred))>>,
-    <<"C07.refresh.grant",  ok => (a.caller \in Clients /\ "refresh" \in Reg[a.caller].grants)>>,
+    <<"C07.refresh.grant",  ok => (a.caller \in Clients /\ "refresh" \in Grants(a.caller))>>,
     <<"C07.refresh.enabled", ok => cfg.refresh>>,
     <<"C05.refresh.auth",   ok => (a.caller \in Clients /\ ~BadCred(a.caller, a.cred))>>,
-    <<"C05.refresh.grant",  ok => (a.caller \in Clients /\ "refresh" \in Reg[a.caller].grants /\ cfg.refresh)>>,
+    <<"C05.refresh.grant",  ok => (a.caller \in Clients /\ "refresh" \in Grants(a.caller) /\ cfg.refresh)>>,
     <<"C07.refresh.subset", (ok /\ known) => want \subseteq r.scopes>>,
     <<"C07.refresh.invalidScope",
         (known /\ r.live /\ a.caller = r.client /\ Clean(a.caller, a.cred) /\ cfg.refresh
-           /\ "refresh" \in Reg[a.caller].grants /\ ~(want \subseteq r.scopes))
+           /\ "refresh" \in Grants(a.caller) /\ ~(want \subseteq r.scopes))
         => (o.class = "json" /\ o.err = "invalid_scope" /\ o.journal = <<>>)>>,
     <<"C07.refresh.rotated", ok => (o.rotated = a.rt /\ o.rt.name # "none" /\ o.rt.name # a.rt)>>,
     <<"C07.refresh.keeps",  (ok /\ known) =>
@@ -274,14 +281,14 @@ RulesRevoke(a, o) ==
     <<"C08.revoke.owner",   (clean /\ (genuine \/ genuineRT) /\ owner = a.caller) => o.status = 200>> }
 
 RulesDeviceAuthorize(a, o) ==
-  { <<"C05.device.grant", (o.class = "device") => (a.caller \in Clients /\ "device" \in Reg[a.caller].grants)>>,
+  { <<"C05.device.grant", (o.class = "device") => (a.caller \in Clients /\ "device" \in Grants(a.caller))>>,
     \* the device code is recorded for the client that authenticated, whatever else the request names
     <<"C05.device.boundTo", (o.class = "device") => o.req = a.caller>>,
     <<"C16.device.boundTo", (o.class = "device") => o.req = a.caller>>,
     \* the user code shown to the user is the one the storage holds for THIS device code (approving it approves this flow and no other) -
     \* also when the storage first answered "user code already exists" and the provider tried again
     <<"C16.device.usercode", (o.class = "device") => o.ucBound>>,
-    <<"C05.device.refused", (a.caller \notin Clients \/ "device" \notin Reg[a.caller].grants) => o.status >= 400>> }
+    <<"C05.device.refused", (a.caller \notin Clients \/ "device" \notin Grants(a.caller)) => o.status >= 400>> }
 
 RulesPoll(a, o) ==
   LET ok == o.class = "tokens"
@@ -291,12 +298,12 @@ RulesPoll(a, o) ==
       authed == a.caller \in Clients /\ AuthOK(a.caller, a.cred)
                   /\ ~(IsConfidential(a.caller) /\ a.cred.kind = "none")
       \* expectation rules: the registered presentation of a client that may use the device grant at all
-      clean == Clean(a.caller, a.cred) /\ "device" \in Reg[a.caller].grants /\ cfg.dev IN
+      clean == Clean(a.caller, a.cred) /\ "device" \in Grants(a.caller) /\ cfg.dev IN
   { <<"C16.poll.approved", ok => (known /\ d.status = "done")>>,
     <<"C16.poll.client",   ok => mine>>,
     <<"C16.poll.auth",     ok => authed>>,
     <<"C05.poll.auth",     ok => (a.caller \in Clients /\ ~BadCred(a.caller, a.cred))>>,
-    <<"C05.poll.grant",    ok => (a.caller \in Clients /\ "device" \in Reg[a.caller].grants /\ cfg.dev)>>,
+    <<"C05.poll.grant",    ok => (a.caller \in Clients /\ "device" \in Grants(a.caller) /\ cfg.dev)>>,
     <<"C16.poll.subject",  (ok /\ known) => (o.at.sub = d.sub /\ Range(o.at.scopes) = d.scopes /\ o.at.client = d.client)>>,
     <<"C16.poll.pending",  (mine /\ clean /\ ~a.slow /\ d.status = "pending" /\ ~d.expired) =>
                               (o.class = "json" /\ o.err = "authorization_pending")>>,
@@ -340,7 +347,7 @@ RulesTokenExchange(a, o) ==
       wantSub == IF cfg.policy.imp # "" THEN cfg.policy.imp ELSE SubOfRef(a.subj)
       wantScopes == Range(a.scopes) \ {cfg.policy.drop} IN
   { <<"C05.te.auth",     ok => (a.caller \in Clients /\ IsConfidential(a.caller) /\ AuthOK(a.caller, a.cred))>>,
-    <<"C05.te.grant",    ok => (a.caller \in Clients /\ "te" \in Reg[a.caller].grants /\ cfg.te)>>,
+    <<"C05.te.grant",    ok => (a.caller \in Clients /\ "te" \in Grants(a.caller) /\ cfg.te)>>,
     \* C08: "token exchange accepts a subject or actor token only for a token the provider actually issued that is neither expired, revoked ..."
     <<"C08.exchange.subject", ok => LiveKind(a.subj)>>,
     <<"C08.exchange.actor",   (ok /\ hasActor) => LiveKind(a.actor)>>,
@@ -371,7 +378,7 @@ RulesTokenExchange(a, o) ==
 RulesClientCreds(a, o) ==
   LET ok == o.class = "tokens" IN
   { <<"C05.cc.auth",  ok => (a.caller \in Clients /\ a.cred.kind \in {"basic", "post"} /\ a.cred.secret = "right" /\ Reg[a.caller].auth \in {"basic", "post"})>>,
-    <<"C05.cc.grant", ok => (a.caller \in Clients /\ "cc" \in Reg[a.caller].grants /\ cfg.cc)>>,
+    <<"C05.cc.grant", ok => (a.caller \in Clients /\ "cc" \in Grants(a.caller) /\ cfg.cc)>>,
     <<"C05.cc.subject", ok => (o.at.sub = a.caller /\ o.at.client = a.caller)>>,
     <<"C05.refused.doc",  (~ok) => (o.status >= 400 /\ o.doc)>> }
 
